@@ -232,17 +232,8 @@ func getDebianCharWeight(r rune) int {
 
 // compareDebianDigits compares digit strings numerically
 func compareDebianDigits(a, b string) int {
-	// Empty string is treated as 0
-	if a == "" && b == "" {
-		return 0
-	}
-	if a == "" {
-		return -1
-	}
-	if b == "" {
-		return 1
-	}
-
+	// Empty string is treated as 0: once the leading zeros are gone it has the
+	// same (empty) text as any run of zeros, so 1a and 1a0 compare equal.
 	// Compare as non-negative integers of any length: ignore leading zeros,
 	// then the longer run is the larger number and runs of equal length
 	// compare digit by digit, which for ASCII digits is the byte order.
